@@ -114,6 +114,7 @@ type G struct {
 	CondPhase int
 	Retry     bool
 	Held      []string
+	VC        []int
 }
 
 func (g *G) clone() *G {
@@ -154,6 +155,9 @@ type State struct {
 	WriteSites map[string]bool
 	Known      map[string]knownRec
 	GBaseSet    bool
+	HB          map[hbLoc]*hbInfo
+	SyncVC      map[string][]int
+	ReportRaces bool
 	GBase       int
 	SchedVars   int
 	PreemptTerm *smt.Term
@@ -196,6 +200,18 @@ func (s *State) fork() *State {
 		c.Known = make(map[string]knownRec, len(s.Known))
 		for k, v := range s.Known {
 			c.Known[k] = v
+		}
+	}
+	if s.HB != nil {
+		c.HB = make(map[hbLoc]*hbInfo, len(s.HB))
+		for k, v := range s.HB {
+			c.HB[k] = v
+		}
+	}
+	if s.SyncVC != nil {
+		c.SyncVC = make(map[string][]int, len(s.SyncVC))
+		for k, v := range s.SyncVC {
+			c.SyncVC[k] = v
 		}
 	}
 	if s.Dirty != nil {
